@@ -21,6 +21,8 @@ pub mod c06;
 #[cfg(feature = "full")]
 pub mod c07;
 #[cfg(feature = "full")]
+pub mod c10;
+#[cfg(feature = "full")]
 pub mod c11;
 #[cfg(feature = "full")]
 pub mod c12;
@@ -61,7 +63,7 @@ macro_rules! drivers {
     };
 }
 drivers! {
-    "C01" => c01, "C02" => c02, "C03" => c03, "C04" => c04, "C05" => c05, "C06" => c06, "C07" => c07,
+    "C01" => c01, "C02" => c02, "C03" => c03, "C04" => c04, "C05" => c05, "C06" => c06, "C07" => c07, "C10" => c10,
     "C11" => c11, "C12" => c12, "C17" => c17,
 }
 
